@@ -143,12 +143,12 @@ struct Runner {
 			Ctx c = begin("removekey", o, -1); bool ok = guarded([&]() { t->remove_key(K[(int)op["key"].integer()]); }); end(c, ok);
 #endif
 		} else if (name == "convolve") {
-			uint32_t dim = (uint32_t)rng.below(t->get_ndim()); double kk[3] = {-0.5, 0.25, 0.75};
+			uint32_t dim = t->get_ndim() ? (uint32_t)rng.below(t->get_ndim()) : 0; double kk[3] = {-0.5, 0.25, 0.75};
 			Ctx c = begin("convolve", o, armed); bool ok = guarded([&]() { t->convolve(dim, kk, 3); });
 			end(c, ok, "\"dim\":" + std::to_string(dim + 1) + ",\"nk\":3");
 		} else if (name == "permute") {
 			bool good = op["good"].b; std::vector<size_t> p(t->get_ndim()); for (size_t i = 0; i < p.size(); i++) p[i] = p.size() - 1 - i;
-			if (!good) p[0] = p.size() + 3;
+			if (!good && !p.empty()) p[0] = p.size() + 3;
 			Ctx c = begin("permute", o, -1); bool ok = guarded([&]() { t->permuteDimensions(p); });
 			end(c, ok, std::string("\"kind\":\"") + (good ? "good" : "bad") + "\"");
 		} else if (name == "write" || name == "writemem") {
